@@ -345,3 +345,29 @@ Theorem C01_covered_well_typed_programs_agree :
    (ValTy.frag_program P = false /\ exists c, Sem.run_main fuel P args = Sem.RunStuck c /\ In c ValTy.stuck_allowed)).
 Proof. exact wt_covered_agrees. Qed.
 Print Assumptions C01_covered_well_typed_programs_agree.
+
+(* ------------------------------------------------------------------ and WITHOUT the RunNoFuel
+   escape (Compile/SemFuel.v): [sem_fuel_needed P] mirrors the fuel consumption of Sem.eval /
+   exec_block / exec (one unit per node, nothing per loop iteration, callee bodies at calls;
+   recursion exceeds the cap), [sem_fuel_enough fuel P] is the boolean the extracted checker
+   evaluates.  For covered, well-typed programs with enough fuel and canonical arguments,
+   whenever the bit-level semantics is defined: Sem.run_main RETURNS the same bits or PANICS with
+   the same reason and location - or (only for programs with a match lacking an irrefutable arm)
+   is stuck on "no arm matches", the case the exhaustiveness check excludes. *)
+From GV Require Import Compile.SemFuel.
+
+Theorem C01_covered_well_typed_programs_with_enough_fuel_agree :
+  forall P fuel fw fT args o outs, (fw <= Wt.wt_fuel)%nat ->
+  wt_covered fw P = true -> sem_fuel_enough fuel P = true ->
+  TSemSemFull.canonical_main_args P args = true -> tsem_program fT P args = Ok (o, outs) ->
+  (exists bits l, Sem.run_main fuel P args = Sem.RunOk bits l /\ o = None /\ outs = bits) \/
+  (exists r m, Sem.run_main fuel P args = Sem.RunPanic r m /\
+               o = Some (preason_num (pr r), PanicSem.ploc32 (ploc_of m))) \/
+  (ValTy.frag_program P = false /\ exists c, Sem.run_main fuel P args = Sem.RunStuck c /\ In c ValTy.stuck_allowed).
+Proof. exact wt_covered_fuel_agrees. Qed.
+Print Assumptions C01_covered_well_typed_programs_with_enough_fuel_agree.
+
+Theorem C01_source_semantics_terminates_within_the_bound :
+  forall P fuel args, sem_fuel_enough fuel P = true -> Sem.run_main fuel P args <> Sem.RunNoFuel.
+Proof. exact run_main_no_nofuel. Qed.
+Print Assumptions C01_source_semantics_terminates_within_the_bound.
